@@ -34,7 +34,22 @@ impl Vector<f64> {
         for i in 0..self.size() {
             result += f64::powf( self.vec[i].abs(), 2.0 );
         }
-        f64::sqrt( result )
+        // ordinary range: no square overflowed and whatever underflowed is negligible
+        if result >= 1.0e-270 && result <= 1.0e270 {
+            return f64::sqrt( result );
+        }
+        // otherwise sum the squares of the entries scaled by the largest magnitude (see norm_p)
+        let mut scale: f64 = 0.0;
+        for i in 0..self.size() {
+            let abs = self.vec[i].abs();
+            if scale < abs || abs.is_nan() { scale = abs; }
+        }
+        if scale == 0.0 || !scale.is_finite() { return scale; }
+        result = 0.0;
+        for i in 0..self.size() {
+            result += f64::powf( self.vec[i].abs() / scale, 2.0 );
+        }
+        scale * f64::sqrt( result )
     }
 
     /// Return the Lp norm: p-th root of the sum of the absolute values 
@@ -45,7 +60,23 @@ impl Vector<f64> {
         for i in 0..self.size() {
             result += f64::powf( self.vec[i].abs(), p );
         }
-        f64::powf( result, 1.0/p )
+        // ordinary range: no power overflowed and whatever underflowed is negligible
+        if result >= 1.0e-270 && result <= 1.0e270 {
+            return f64::powf( result, 1.0/p );
+        }
+        // otherwise (entries beyond 1e154 gave norm_2 = inf for finite data, entries below 1e-162 gave
+        // norm_2 = 0 < norm_inf) sum the powers of the entries scaled by the largest magnitude
+        let mut scale: f64 = 0.0;
+        for i in 0..self.size() {
+            let abs = self.vec[i].abs();
+            if scale < abs || abs.is_nan() { scale = abs; }
+        }
+        if scale == 0.0 || !scale.is_finite() { return scale; }
+        result = 0.0;
+        for i in 0..self.size() {
+            result += f64::powf( self.vec[i].abs() / scale, p );
+        }
+        scale * f64::powf( result, 1.0/p )
     }
 
     /// Return the Inf norm: largest absolute value element (p -> infinity)
